@@ -1,0 +1,416 @@
+//! Verification hooks. Compiled only with `RUSTFLAGS="--cfg nervusdb_verif"`.
+//!
+//! Everything here is inert unless a harness installs a [`Hooks`] implementation
+//! (per thread with [`install_thread`], or process wide with [`install_global`]).
+//! With no hooks installed every entry point is a cheap no-op, so a guarded
+//! build behaves exactly like a normal build.
+
+use std::cell::RefCell;
+use std::fs::File;
+use std::panic::Location;
+use std::path::Path;
+use std::sync::atomic::{AtomicUsize, Ordering};
+use std::sync::{Arc, RwLock};
+
+#[derive(Debug, Clone, Copy, PartialEq, Eq)]
+pub enum IoOp {
+    /// A file is about to be created at `path`.
+    Create,
+    /// `data` is about to be appended at the end of `file`.
+    Append,
+    /// `data` is about to be written at `offset`.
+    WriteAt,
+    /// The file is about to be resized to `offset` bytes.
+    SetLen,
+    /// `sync_data` is about to be called.
+    Sync,
+    /// `path` is about to be renamed to `path2`.
+    Rename,
+    /// `path` is about to be removed.
+    Remove,
+}
+
+pub struct IoEvent<'a> {
+    pub site: &'static str,
+    pub op: IoOp,
+    pub file: Option<&'a File>,
+    pub path: Option<&'a Path>,
+    pub path2: Option<&'a Path>,
+    pub offset: u64,
+    pub data: &'a [u8],
+}
+
+#[derive(Debug, Clone, Copy, PartialEq, Eq)]
+pub enum PageOp {
+    Allocate,
+    EnsureAllocated,
+    Write,
+    Free,
+}
+
+#[derive(Debug, Clone, Copy, PartialEq, Eq)]
+pub enum LockMode {
+    Mutex,
+    Read,
+    Write,
+}
+
+#[derive(Debug, Clone, Copy, PartialEq, Eq)]
+pub enum LockPhase {
+    Attempt,
+    Acquired,
+    Released,
+}
+
+#[derive(Debug, Clone, Copy)]
+pub struct LockEvent {
+    /// Address-independent identity of the lock instance.
+    pub lock_id: usize,
+    /// Where the lock was constructed (`file:line`), i.e. its class.
+    pub class: &'static Location<'static>,
+    pub mode: LockMode,
+    pub phase: LockPhase,
+}
+
+pub trait Hooks: Send + Sync {
+    /// Called immediately before a mutating file operation. Returning an error makes the
+    /// operation fail with that error without being performed.
+    fn io(&self, _ev: &IoEvent<'_>) -> std::io::Result<()> {
+        Ok(())
+    }
+    /// Called at named schedule points that sit between the engine's own critical sections.
+    fn sched(&self, _point: &'static str) {}
+    /// Called for page allocator traffic.
+    fn page(&self, _op: PageOp, _page_id: u64, _caller: &'static Location<'static>) {}
+    /// Lets a harness control the clock component of generated external ids.
+    fn clock(&self, _counter: u64) -> Option<u64> {
+        None
+    }
+    /// Lock shim traffic.
+    fn lock(&self, _ev: &LockEvent) {}
+}
+
+thread_local! {
+    static THREAD_HOOKS: RefCell<Option<Arc<dyn Hooks>>> = const { RefCell::new(None) };
+}
+static GLOBAL_HOOKS: RwLock<Option<Arc<dyn Hooks>>> = RwLock::new(None);
+static INSTALLED: AtomicUsize = AtomicUsize::new(0);
+
+pub fn install_thread(h: Arc<dyn Hooks>) {
+    THREAD_HOOKS.with(|t| {
+        if t.borrow_mut().replace(h).is_none() {
+            INSTALLED.fetch_add(1, Ordering::SeqCst);
+        }
+    });
+}
+
+pub fn uninstall_thread() {
+    THREAD_HOOKS.with(|t| {
+        if t.borrow_mut().take().is_some() {
+            INSTALLED.fetch_sub(1, Ordering::SeqCst);
+        }
+    });
+}
+
+pub fn install_global(h: Arc<dyn Hooks>) {
+    let mut g = GLOBAL_HOOKS.write().unwrap_or_else(|e| e.into_inner());
+    if g.replace(h).is_none() {
+        INSTALLED.fetch_add(1, Ordering::SeqCst);
+    }
+}
+
+pub fn uninstall_global() {
+    let mut g = GLOBAL_HOOKS.write().unwrap_or_else(|e| e.into_inner());
+    if g.take().is_some() {
+        INSTALLED.fetch_sub(1, Ordering::SeqCst);
+    }
+}
+
+fn current() -> Option<Arc<dyn Hooks>> {
+    if INSTALLED.load(Ordering::Relaxed) == 0 {
+        return None;
+    }
+    let local = THREAD_HOOKS
+        .try_with(|t| t.try_borrow().ok().and_then(|b| b.clone()))
+        .ok()
+        .flatten();
+    if local.is_some() {
+        return local;
+    }
+    GLOBAL_HOOKS
+        .read()
+        .unwrap_or_else(|e| e.into_inner())
+        .clone()
+}
+
+pub fn io_file(
+    site: &'static str,
+    op: IoOp,
+    file: &File,
+    offset: u64,
+    data: &[u8],
+) -> std::io::Result<()> {
+    match current() {
+        None => Ok(()),
+        Some(h) => h.io(&IoEvent {
+            site,
+            op,
+            file: Some(file),
+            path: None,
+            path2: None,
+            offset,
+            data,
+        }),
+    }
+}
+
+pub fn io_path(
+    site: &'static str,
+    op: IoOp,
+    path: &Path,
+    path2: Option<&Path>,
+) -> std::io::Result<()> {
+    match current() {
+        None => Ok(()),
+        Some(h) => h.io(&IoEvent {
+            site,
+            op,
+            file: None,
+            path: Some(path),
+            path2,
+            offset: 0,
+            data: &[],
+        }),
+    }
+}
+
+pub fn sched(point: &'static str) {
+    if let Some(h) = current() {
+        h.sched(point);
+    }
+}
+
+pub fn page(op: PageOp, page_id: u64, caller: &'static Location<'static>) {
+    if let Some(h) = current() {
+        h.page(op, page_id, caller);
+    }
+}
+
+pub fn clock(counter: u64) -> Option<u64> {
+    current().and_then(|h| h.clock(counter))
+}
+
+pub fn lock_event(ev: &LockEvent) {
+    if let Some(h) = current() {
+        h.lock(ev);
+    }
+}
+
+/// Drop-in replacements for `std::sync::{Mutex, RwLock}` that report lock traffic.
+pub mod sync {
+    use super::{LockEvent, LockMode, LockPhase, lock_event};
+    use std::ops::{Deref, DerefMut};
+    use std::panic::Location;
+    use std::sync::atomic::{AtomicUsize, Ordering};
+    use std::sync::{LockResult, PoisonError};
+
+    static NEXT_LOCK_ID: AtomicUsize = AtomicUsize::new(1);
+
+    #[derive(Debug)]
+    pub struct Mutex<T> {
+        id: usize,
+        class: &'static Location<'static>,
+        inner: std::sync::Mutex<T>,
+    }
+
+    pub struct MutexGuard<'a, T> {
+        id: usize,
+        class: &'static Location<'static>,
+        inner: Option<std::sync::MutexGuard<'a, T>>,
+    }
+
+    impl<T> Mutex<T> {
+        #[track_caller]
+        pub fn new(value: T) -> Self {
+            Self {
+                id: NEXT_LOCK_ID.fetch_add(1, Ordering::Relaxed),
+                class: Location::caller(),
+                inner: std::sync::Mutex::new(value),
+            }
+        }
+
+        pub fn lock(&self) -> LockResult<MutexGuard<'_, T>> {
+            let ev = |phase| LockEvent {
+                lock_id: self.id,
+                class: self.class,
+                mode: LockMode::Mutex,
+                phase,
+            };
+            lock_event(&ev(LockPhase::Attempt));
+            let (guard, poisoned) = match self.inner.lock() {
+                Ok(g) => (g, false),
+                Err(e) => (e.into_inner(), true),
+            };
+            lock_event(&ev(LockPhase::Acquired));
+            let g = MutexGuard {
+                id: self.id,
+                class: self.class,
+                inner: Some(guard),
+            };
+            if poisoned {
+                Err(PoisonError::new(g))
+            } else {
+                Ok(g)
+            }
+        }
+    }
+
+    impl<T> Deref for MutexGuard<'_, T> {
+        type Target = T;
+        fn deref(&self) -> &T {
+            self.inner.as_ref().unwrap()
+        }
+    }
+
+    impl<T> DerefMut for MutexGuard<'_, T> {
+        fn deref_mut(&mut self) -> &mut T {
+            self.inner.as_mut().unwrap()
+        }
+    }
+
+    impl<T> Drop for MutexGuard<'_, T> {
+        fn drop(&mut self) {
+            drop(self.inner.take());
+            lock_event(&LockEvent {
+                lock_id: self.id,
+                class: self.class,
+                mode: LockMode::Mutex,
+                phase: LockPhase::Released,
+            });
+        }
+    }
+
+    #[derive(Debug)]
+    pub struct RwLock<T> {
+        id: usize,
+        class: &'static Location<'static>,
+        inner: std::sync::RwLock<T>,
+    }
+
+    pub struct RwLockReadGuard<'a, T> {
+        id: usize,
+        class: &'static Location<'static>,
+        inner: Option<std::sync::RwLockReadGuard<'a, T>>,
+    }
+
+    pub struct RwLockWriteGuard<'a, T> {
+        id: usize,
+        class: &'static Location<'static>,
+        inner: Option<std::sync::RwLockWriteGuard<'a, T>>,
+    }
+
+    impl<T> RwLock<T> {
+        #[track_caller]
+        pub fn new(value: T) -> Self {
+            Self {
+                id: NEXT_LOCK_ID.fetch_add(1, Ordering::Relaxed),
+                class: Location::caller(),
+                inner: std::sync::RwLock::new(value),
+            }
+        }
+
+        pub fn read(&self) -> LockResult<RwLockReadGuard<'_, T>> {
+            let ev = |phase| LockEvent {
+                lock_id: self.id,
+                class: self.class,
+                mode: LockMode::Read,
+                phase,
+            };
+            lock_event(&ev(LockPhase::Attempt));
+            let (guard, poisoned) = match self.inner.read() {
+                Ok(g) => (g, false),
+                Err(e) => (e.into_inner(), true),
+            };
+            lock_event(&ev(LockPhase::Acquired));
+            let g = RwLockReadGuard {
+                id: self.id,
+                class: self.class,
+                inner: Some(guard),
+            };
+            if poisoned {
+                Err(PoisonError::new(g))
+            } else {
+                Ok(g)
+            }
+        }
+
+        pub fn write(&self) -> LockResult<RwLockWriteGuard<'_, T>> {
+            let ev = |phase| LockEvent {
+                lock_id: self.id,
+                class: self.class,
+                mode: LockMode::Write,
+                phase,
+            };
+            lock_event(&ev(LockPhase::Attempt));
+            let (guard, poisoned) = match self.inner.write() {
+                Ok(g) => (g, false),
+                Err(e) => (e.into_inner(), true),
+            };
+            lock_event(&ev(LockPhase::Acquired));
+            let g = RwLockWriteGuard {
+                id: self.id,
+                class: self.class,
+                inner: Some(guard),
+            };
+            if poisoned {
+                Err(PoisonError::new(g))
+            } else {
+                Ok(g)
+            }
+        }
+    }
+
+    impl<T> Deref for RwLockReadGuard<'_, T> {
+        type Target = T;
+        fn deref(&self) -> &T {
+            self.inner.as_ref().unwrap()
+        }
+    }
+
+    impl<T> Drop for RwLockReadGuard<'_, T> {
+        fn drop(&mut self) {
+            drop(self.inner.take());
+            lock_event(&LockEvent {
+                lock_id: self.id,
+                class: self.class,
+                mode: LockMode::Read,
+                phase: LockPhase::Released,
+            });
+        }
+    }
+
+    impl<T> Deref for RwLockWriteGuard<'_, T> {
+        type Target = T;
+        fn deref(&self) -> &T {
+            self.inner.as_ref().unwrap()
+        }
+    }
+
+    impl<T> DerefMut for RwLockWriteGuard<'_, T> {
+        fn deref_mut(&mut self) -> &mut T {
+            self.inner.as_mut().unwrap()
+        }
+    }
+
+    impl<T> Drop for RwLockWriteGuard<'_, T> {
+        fn drop(&mut self) {
+            drop(self.inner.take());
+            lock_event(&LockEvent {
+                lock_id: self.id,
+                class: self.class,
+                mode: LockMode::Write,
+                phase: LockPhase::Released,
+            });
+        }
+    }
+}
